@@ -29,10 +29,12 @@ pub enum RP {
     Multi,
     /// `["", "/b"]`: a list with an empty alternative (inside a scope it matches the bare prefix)
     MultiEmpty,
+    /// `/{x}.b`: literal text (with a regex meta character) after the last dynamic segment
+    DynDot,
 }
 
-pub const RP_ALL: [RP; 10] =
-    [RP::Empty, RP::Slash, RP::A, RP::ASlash, RP::Dyn, RP::ADyn, RP::Digits, RP::Tail, RP::Multi, RP::MultiEmpty];
+pub const RP_ALL: [RP; 11] =
+    [RP::Empty, RP::Slash, RP::A, RP::ASlash, RP::Dyn, RP::ADyn, RP::Digits, RP::Tail, RP::Multi, RP::MultiEmpty, RP::DynDot];
 
 impl RP {
     /// The pattern strings handed to `web::resource`.
@@ -48,6 +50,7 @@ impl RP {
             RP::Tail => vec!["/{t}*"],
             RP::Multi => vec!["/a", "/b"],
             RP::MultiEmpty => vec!["", "/b"],
+            RP::DynDot => vec!["/{x}.b"],
         }
     }
 }
